@@ -29,10 +29,13 @@ def C09_full_bound : Prop :=
     t.ret ≤ propertyBound cfg t
 
 /-- the literals the model is written over (re-extracted on every run): the counters move by 1,
-    `WriteTimeout > 0` arms the timer of `TarsClient.Send` -/
+    `WriteTimeout > 0` arms the timer of `TarsClient.Send`, and the decrement of `queueLen` in
+    `doInvoke`'s deferred cleanup is on the same receiver as the increment (`&s.queueLen` both — the
+    counter of the proxy the call was made on, not `adp.servantProxy`, the proxy that used the shared
+    adapter last) -/
 theorem C09_model_applicable :
     Consts.callQueueLenInc = 1 ∧ Consts.callInvokeNumInc = 1 ∧ Consts.callWriteTimeoutOffValue = 0 ∧
-    Consts.callReplyChanCap = 0 := by decide
+    Consts.callReplyChanCap = 0 ∧ Consts.callQueueLenDecSameReceiver = 1 := by decide
 
 /-- **Effective deadline.** The caller's context deadline if it has one, otherwise now + the per-call
     timeout, otherwise now + the configured timeout. -/
@@ -56,17 +59,17 @@ theorem C09_deadline_path_independent (cfg : Cfg) (now : Nat) (par : Params) (p 
   unfold handedDeadline effDeadline
   cases par.ctxDeadline <;> simp [hp]
 
-example : handedDeadline ⟨1, 0, 1, 0, 0, 3000⟩ 10 ⟨false, 0, none, some 500⟩ .middleware = some 510 ∧
-    handedDeadline ⟨1, 0, 1, 0, 0, 3000⟩ 10 ⟨false, 0, none, none⟩ .single = some 3010 ∧
-    handedDeadline ⟨1, 0, 1, 0, 0, 3000⟩ 10 ⟨false, 0, some 700, some 500⟩ .prePost = some 700 := by decide
+example : handedDeadline ⟨1, 0, 1, 0, 0, 3000⟩ 10 ⟨false, 0, none, some 500, 0⟩ .middleware = some 510 ∧
+    handedDeadline ⟨1, 0, 1, 0, 0, 3000⟩ 10 ⟨false, 0, none, none, 0⟩ .single = some 3010 ∧
+    handedDeadline ⟨1, 0, 1, 0, 0, 3000⟩ 10 ⟨false, 0, some 700, some 500, 0⟩ .prePost = some 700 := by decide
 
 /-- **C09_cleanup** (inductive invariant; all interleavings, all peer behaviours, any number of
-    callers).  In every reachable state `queueLen` is the number of calls between `queueLen+1` and the
-    deferred `queueLen-1`, `invokeNum` the number of calls between `preInvoke` and `postInvoke`, every
+    callers and of ServantProxy objects sharing the adapters).  In every reachable state the `queueLen`
+    of every proxy is the number of ITS calls between `queueLen+1` and the deferred `queueLen-1`, `invokeNum` the number of calls between `preInvoke` and `postInvoke`, every
     entry of a pending-reply table belongs to a call between `resp.Store` and `resp.Delete` that carries
     the entry's id, and every such call is found under its id unless another call shares the id. -/
 theorem C09_cleanup {cfg : Cfg} {ctr : Int} {s : State} (hr : Reachable cfg ctr s) :
-    s.queueLen = (s.calls.countP (fun c => c.pc.inQueue) : Nat) ∧
+    (∀ p : Nat, qGet s.queueLens p = (s.calls.countP (fun c => c.pc.inQueue && c.par.proxy == p) : Nat)) ∧
     s.invokeNum = (s.calls.countP (fun c => c.pc.inInvoke) : Nat) ∧
     (∀ e ∈ s.table, ∃ c, s.calls[e.call]? = some c ∧ c.id = e.id ∧ c.adp = e.adp ∧ c.pc.registered = true) ∧
     (∀ (i : Nat) (c : Call), s.calls[i]? = some c → c.pc.registered = true →
@@ -74,6 +77,40 @@ theorem C09_cleanup {cfg : Cfg} {ctr : Int} {s : State} (hr : Reachable cfg ctr 
       ∃ (j : Nat) (c' : Call), j ≠ i ∧ s.calls[j]? = some c' ∧ c'.pc.stored = true ∧ c'.id = c.id ∧ c'.adp = c.adp) :=
   let hI := inv_reachable hr
   ⟨hI.ql, hI.inv, hI.tbl, hI.own⟩
+
+/-- **C09_counters_per_proxy** (any number of ServantProxy objects of one object sharing the endpoint
+    manager and its adapters, all interleavings of their calls).  The `queueLen` of proxy `p` counts
+    exactly the calls made ON `p` that are between their increment and their deferred decrement —
+    calls of other proxies that run through the same adapter, before, during or after, do not move it;
+    it is never negative; and once every call made on `p` has returned (or has not started) it is 0,
+    whatever the calls of the other proxies are doing. -/
+theorem C09_counters_per_proxy {cfg : Cfg} {ctr : Int} {s : State} (hr : Reachable cfg ctr s) (p : Nat) :
+    qGet s.queueLens p = (s.calls.countP (fun c => c.pc.inQueue && c.par.proxy == p) : Nat) ∧
+    0 ≤ qGet s.queueLens p ∧
+    ((∀ c ∈ s.calls, c.par.proxy = p → c.pc = .idle ∨ ∃ o, c.pc = .done o) → qGet s.queueLens p = 0) := by
+  have hq := (inv_reachable hr).ql p
+  refine ⟨hq, by rw [hq]; exact Int.natCast_nonneg _, ?_⟩
+  intro h
+  have : s.calls.countP (fun c => c.pc.inQueue && c.par.proxy == p) = 0 := by
+    rw [List.countP_eq_zero]
+    intro c hc
+    by_cases hp : c.par.proxy = p
+    · rcases h c hc hp with h' | ⟨o, h'⟩ <;> simp [h', Pc.inQueue]
+    · simp [hp]
+  rw [hq, this]; rfl
+
+/-- non-vacuity: proxy 0's call waits for its reply while proxy 1 makes and finishes a call through the
+    same adapter, then proxy 0's call times out: in between proxy 0's counter is 1 and proxy 1's is back
+    at 0, at the end both are 0 -/
+example :
+    let cfg : Cfg := ⟨1, 100, 4, 3, 3, 5⟩
+    let pre (i : Nat) : List Action :=
+      [CallAct.begin, .cas, .add, .pre, .selectAdp (some 0), .gate, .incQ, .store, .lockAcq].map (Action.call i)
+    let fin (i : Nat) : List Action := [CallAct.decQ, .del, .post].map (Action.call i)
+    let mid := [Action.spawn ⟨false, 0, none, none, 0⟩, .spawn ⟨false, 1, none, none, 1⟩] ++ pre 0 ++
+      [.call 0 .dialOk, .call 0 .enqueue] ++ pre 1 ++ [.call 1 .enqueue, .emit 0 ⟨2, false, 1⟩, .lookup 0, .deliver 0] ++ fin 1
+    (run cfg (init cfg 0) mid).map (·.queueLens) = some [1, 0] ∧
+    (run cfg (init cfg 0) (mid ++ [.call 0 .timeout] ++ fin 0)).map (·.queueLens) = some [0, 0] := by decide
 
 /-- A call that has returned — with a reply, an error or a timeout — holds nothing: it is counted in
     neither counter and no table entry refers to it. -/
@@ -90,9 +127,10 @@ theorem C09_cleanup_returned {cfg : Cfg} {ctr : Int} {s : State} (hr : Reachable
     pending-reply tables are empty — whatever happened in between. -/
 theorem C09_cleanup_quiescent {cfg : Cfg} {ctr : Int} {s : State} (hr : Reachable cfg ctr s)
     (hq : ∀ c ∈ s.calls, c.pc = .idle ∨ ∃ o, c.pc = .done o) :
-    s.queueLen = 0 ∧ s.invokeNum = 0 ∧ s.table = [] := by
+    (∀ p : Nat, qGet s.queueLens p = 0) ∧ s.invokeNum = 0 ∧ s.table = [] := by
   have hI := inv_reachable hr
-  have h1 : s.calls.countP (fun c => c.pc.inQueue) = 0 := by
+  have h1 : ∀ p : Nat, s.calls.countP (fun c => c.pc.inQueue && c.par.proxy == p) = 0 := by
+    intro p
     rw [List.countP_eq_zero]
     intro c hc
     rcases hq c hc with h | ⟨o, h⟩ <;> simp [h, Pc.inQueue]
@@ -100,7 +138,7 @@ theorem C09_cleanup_quiescent {cfg : Cfg} {ctr : Int} {s : State} (hr : Reachabl
     rw [List.countP_eq_zero]
     intro c hc
     rcases hq c hc with h | ⟨o, h⟩ <;> simp [h, Pc.inInvoke]
-  refine ⟨by rw [hI.ql, h1]; rfl, by rw [hI.inv, h2]; rfl, ?_⟩
+  refine ⟨fun p => by rw [hI.ql p, h1 p]; rfl, by rw [hI.inv, h2]; rfl, ?_⟩
   cases ht : s.table with
   | nil => rfl
   | cons e es =>
@@ -119,11 +157,11 @@ example : (run C08.demoCfg (init C08.demoCfg 0) C08.demoActs).map
     after the return of its call therefore affects no call at all. -/
 theorem C09_late_reply {cfg : Cfg} {ctr : Int} {s s' : State} (hr : Reachable cfg ctr s) :
     (∀ a, a.isRecvSide = true → step cfg s a = some s' →
-      s'.calls = s.calls ∧ s'.table = s.table ∧ s'.queueLen = s.queueLen ∧ s'.invokeNum = s.invokeNum) ∧
+      s'.calls = s.calls ∧ s'.table = s.table ∧ s'.queueLens = s.queueLens ∧ s'.invokeNum = s.invokeNum) ∧
     (∀ (r : Nat) (x : Rcv), s.rcvs[r]? = some x → tLoad s.table x.adp x.pkt.id = none →
       step cfg s (.lookup r) = some s' → ∃ pc, (pc = .dropped ∨ pc = .pushed) ∧ s' = s.setRcv r { x with pc := pc }) ∧
     (∀ (r : Nat), step cfg s (.deliver r) = some s' →
-      s'.table = s.table ∧ s'.queueLen = s.queueLen ∧ s'.invokeNum = s.invokeNum ∧
+      s'.table = s.table ∧ s'.queueLens = s.queueLens ∧ s'.invokeNum = s.invokeNum ∧
       ∃ (x : Rcv) (i : Nat) (c : Call), s.rcvs[r]? = some x ∧ s.calls[i]? = some c ∧ c.pc = .wait ∧
         c.id = x.pkt.id ∧ c.adp = x.adp ∧
         ∀ (j : Nat), j ≠ i → s'.calls[j]? = s.calls[j]?) := by
@@ -210,7 +248,7 @@ theorem C09_bound_property_partial {cfg : Cfg} {ctr : Int} {ts : TState} (hr : T
 
 /-! ### counterexamples (D18 and the dial lock) -/
 
-def par0 : Params := ⟨false, 0, none, none⟩
+def par0 : Params := ⟨false, 0, none, none, 0⟩
 def upToLock (i : Nat) : List TAction :=
   [CallAct.begin, .cas, .add, .pre, .selectAdp (some 0), .gate, .incQ, .store, .lockAcq].map
     (fun a => TAction.act (.call i a))
@@ -305,7 +343,7 @@ def zeroPrefix : List TAction :=
 def stuck (k : Nat) : TState :=
   { base := { gen := ⟨2, [2, 1]⟩,
               calls := [⟨par0, .done .timeout, 1, 0, 0⟩, ⟨par0, .enq, 2, 1, 0⟩],
-              table := [⟨0, 2, 1⟩], queueLen := 1, invokeNum := 1,
+              table := [⟨0, 2, 1⟩], queueLens := [1], invokeNum := 1,
               conns := [⟨false, false, [1]⟩], rcvs := [], emitted := [] },
     now := k, times := [⟨0, 1, 0, 0, false, 1⟩, ⟨0, 1, 0, 0, true, 0⟩] }
 
